@@ -10,7 +10,7 @@
    buf_size_bytes argument.  Preconditions of the C contract are boolean guards:
      copy_pre  = both buffers are large enough for the addressed ranges, allocations < 2^61 bytes
      buf_pre   = size <= allocation, allocation < 2^61 bytes, offset is a size_t, bytes < 256. *)
-From Verif Require Import Bits CPrims CPrimsThm F16 F16Thm F16ArithThm CppPrims CppPrimsThm CppPrimsMoreThm PyPrims PyPrimsThm PyPrimsMoreThm PyPrimsStdThm PyPrimsBitsThm PyPrimsForkThm.
+From Verif Require Import Bits CPrims CPrimsThm F16 F16Thm F16ArithThm CppPrims CppPrimsThm CppPrimsMoreThm PyPrims PyPrimsThm PyPrimsMoreThm PyPrimsStdThm PyPrimsBitsThm PyPrimsForkThm PrimsExt PrimsExtThm.
 Open Scope N_scope.
 
 (* ---------------------------------------------------------------------------------------------
@@ -31,32 +31,63 @@ Example C14_copy_pre_satisfiable :
   copy_pre [1; 2; 3] 5 17 [255; 0; 255; 7] 3 = true /\ copy_pre [] 0 0 [] 0 = true.
 Proof. vm_compute. auto. Qed.
 
-Theorem C14_copy_bits_zero_length :
-  forall dst doff src soff, copy_bits dst doff 0 src soff = Some dst.
-Proof. exact copy_bits_zero_length. Qed.
-Print Assumptions C14_copy_bits_zero_length.
+(* C: zero-length copy, SaturateBufferFragmentBitLength, GetBits, SetIxx, SetBit, GetBit, sign_extend = two's complement, little = any/big *)
+Theorem C14_c_further_members :
+  (forall dst doff src soff, copy_bits dst doff 0 src soff = Some dst) /\
+  (* nunavutSaturateBufferFragmentBitLength: min(len, bits left after off), never past the end *)
+  (forall size off len,
+     (size * 8 <? two64) = true ->
+     saturate_fragment size off len = N.min len (size * 8 - N.min (size * 8) off) /\
+     off + saturate_fragment size off len <= N.max off (size * 8)) /\
+  (* nunavutGetBits: (len+7)/8 output bytes are written: bits of the buffer inside it, zero beyond
+     its end (implicit zero extension) and in the padding of the last byte; nothing else changes *)
+  (forall (output buf : bytes) (size off len : N),
+     buf_pre buf size off = true -> (len + 7 <? two64) = true ->
+     ((len + 7) / 8 <=? blen output) && alloc_ok output = true ->
+     exists r, get_bits output buf size off len = Some r /\ length r = length output /\
+       forall p, bit r p = if p <? 8 * ((len + 7) / 8)
+                           then (p <? len) && (off + p <? 8 * size) && bit buf (off + p)
+                           else bit output p) /\
+  (* nunavutSetIxx: the same with the two's complement bits of the signed value *)
+  (forall (little : bool) (buf : bytes) (size off : N) (value : Z) (len : N),
+     buf_pre buf size off = true -> (off + len <? two64) = true ->
+     if size * 8 <? off + len
+     then set_ixx little buf size off value len = Some (inr TooSmall)
+     else exists r, set_ixx little buf size off value len = Some (inl r) /\ length r = length buf /\
+            forall p, bit r p = if (off <=? p) && (p <? off + N.min len 64)
+                                then Z.testbit value (Z.of_N (p - off)) else bit buf p) /\
+  (forall (buf : bytes) (size off : N) (value : bool),
+     buf_pre buf size off = true ->
+     if size * 8 <=? off
+     then set_bit buf size off value = Some (inr TooSmall)
+     else exists r, set_bit buf size off value = Some (inl r) /\ length r = length buf /\
+            forall p, bit r p = if p =? off then value else bit buf p) /\
+  (forall (little : bool) (buf : bytes) (size off : N),
+     buf_pre buf size off = true ->
+     get_bit little buf size off = Some ((off <? 8 * size) && bit buf off)) /\
+  (forall sat u, 0 < sat -> u < 2 ^ sat ->
+     (- 2 ^ (Z.of_N sat - 1) <= sign_extend sat u < 2 ^ (Z.of_N sat - 1))%Z /\
+     (sign_extend sat u mod 2 ^ Z.of_N sat = Z.of_N u)%Z) /\
+  (* target_endianness = little and = any/big compute the same functions (little-endian host) *)
+  (forall (w : N) (buf : bytes) (size off len value : N),
+     (w =? 8) || (w =? 16) || (w =? 32) || (w =? 64) = true -> buf_pre buf size off = true ->
+     get_uxx true w buf size off len = get_uxx false w buf size off len /\
+     get_ixx true w buf size off len = get_ixx false w buf size off len /\
+     set_uxx true buf size off value len = set_uxx false buf size off value len).
+Proof.
+  split; [|split; [|split; [|split; [|split; [|split; [|split]]]]]].
+  - (* copy_bits_zero_length *) exact copy_bits_zero_length.
+  - (* saturate_fragment_spec *) exact saturate_fragment_spec_b.
+  - (* get_bits_zero_ext *) exact get_bits_zero_ext_b.
+  - (* set_ixx_exact *) exact set_ixx_exact_b.
+  - (* set_bit_exact *) exact set_bit_exact_b.
+  - (* get_bit_spec *) exact get_bit_spec_b.
+  - (* sign_extend_is_twos_complement *) exact sign_extend_range.
+  - (* endianness_variants_equal *) exact endianness_variants_equal_b.
+Qed.
+Print Assumptions C14_c_further_members.
 
-(* nunavutSaturateBufferFragmentBitLength: min(len, bits left after off), never past the end *)
-Theorem C14_saturate_fragment_spec :
-  forall size off len,
-    (size * 8 <? two64) = true ->
-    saturate_fragment size off len = N.min len (size * 8 - N.min (size * 8) off) /\
-    off + saturate_fragment size off len <= N.max off (size * 8).
-Proof. exact saturate_fragment_spec_b. Qed.
-Print Assumptions C14_saturate_fragment_spec.
 
-(* nunavutGetBits: (len+7)/8 output bytes are written: bits of the buffer inside it, zero beyond
-   its end (implicit zero extension) and in the padding of the last byte; nothing else changes *)
-Theorem C14_get_bits_zero_ext :
-  forall (output buf : bytes) (size off len : N),
-    buf_pre buf size off = true -> (len + 7 <? two64) = true ->
-    ((len + 7) / 8 <=? blen output) && alloc_ok output = true ->
-    exists r, get_bits output buf size off len = Some r /\ length r = length output /\
-      forall p, bit r p = if p <? 8 * ((len + 7) / 8)
-                          then (p <? len) && (off + p <? 8 * size) && bit buf (off + p)
-                          else bit output p.
-Proof. exact get_bits_zero_ext_b. Qed.
-Print Assumptions C14_get_bits_zero_ext.
 
 Example C14_buf_pre_satisfiable :
   buf_pre [1; 2; 3] 2 100 = true /\ buf_pre [] 0 0 = true.
@@ -75,27 +106,7 @@ Theorem C14_set_uxx_exact :
 Proof. exact set_uxx_exact_b. Qed.
 Print Assumptions C14_set_uxx_exact.
 
-(* nunavutSetIxx: the same with the two's complement bits of the signed value *)
-Theorem C14_set_ixx_exact :
-  forall (little : bool) (buf : bytes) (size off : N) (value : Z) (len : N),
-    buf_pre buf size off = true -> (off + len <? two64) = true ->
-    if size * 8 <? off + len
-    then set_ixx little buf size off value len = Some (inr TooSmall)
-    else exists r, set_ixx little buf size off value len = Some (inl r) /\ length r = length buf /\
-           forall p, bit r p = if (off <=? p) && (p <? off + N.min len 64)
-                               then Z.testbit value (Z.of_N (p - off)) else bit buf p.
-Proof. exact set_ixx_exact_b. Qed.
-Print Assumptions C14_set_ixx_exact.
 
-Theorem C14_set_bit_exact :
-  forall (buf : bytes) (size off : N) (value : bool),
-    buf_pre buf size off = true ->
-    if size * 8 <=? off
-    then set_bit buf size off value = Some (inr TooSmall)
-    else exists r, set_bit buf size off value = Some (inl r) /\ length r = length buf /\
-           forall p, bit r p = if p =? off then value else bit buf p.
-Proof. exact set_bit_exact_b. Qed.
-Print Assumptions C14_set_bit_exact.
 
 (* nunavutGetU8/16/32/64 (both renderings): the field, zero-extended beyond `size` bytes,
    len > N clamped to N; never an out-of-range access, for any offset *)
@@ -107,12 +118,6 @@ Theorem C14_get_uN_spec :
 Proof. exact get_uxx_spec_b. Qed.
 Print Assumptions C14_get_uN_spec.
 
-Theorem C14_get_bit_spec :
-  forall (little : bool) (buf : bytes) (size off : N),
-    buf_pre buf size off = true ->
-    get_bit little buf size off = Some ((off <? 8 * size) && bit buf off).
-Proof. exact get_bit_spec_b. Qed.
-Print Assumptions C14_get_bit_spec.
 
 (* nunavutGetI8/16/32/64: sign extension of the min(len,N)-bit field u:
    u - 2^sat if bit sat-1 is set, u otherwise (sat = 0 gives 0; sat = 1 gives 0 / -1, which the
@@ -125,22 +130,7 @@ Theorem C14_get_iN_sign_ext :
 Proof. exact get_ixx_sign_ext_b. Qed.
 Print Assumptions C14_get_iN_sign_ext.
 
-Theorem C14_sign_extend_is_twos_complement :
-  forall sat u, 0 < sat -> u < 2 ^ sat ->
-    (- 2 ^ (Z.of_N sat - 1) <= sign_extend sat u < 2 ^ (Z.of_N sat - 1))%Z /\
-    (sign_extend sat u mod 2 ^ Z.of_N sat = Z.of_N u)%Z.
-Proof. exact sign_extend_range. Qed.
-Print Assumptions C14_sign_extend_is_twos_complement.
 
-(* target_endianness = little and = any/big compute the same functions (little-endian host) *)
-Theorem C14_endianness_variants_equal :
-  forall (w : N) (buf : bytes) (size off len value : N),
-    (w =? 8) || (w =? 16) || (w =? 32) || (w =? 64) = true -> buf_pre buf size off = true ->
-    get_uxx true w buf size off len = get_uxx false w buf size off len /\
-    get_ixx true w buf size off len = get_ixx false w buf size off len /\
-    set_uxx true buf size off value len = set_uxx false buf size off value len.
-Proof. exact endianness_variants_equal_b. Qed.
-Print Assumptions C14_endianness_variants_equal.
 
 (* ---------------------------------------------------------------------------------------------
    Half precision: nunavutFloat16Pack / nunavutFloat16Unpack (C and C++ headers carry the same code),
@@ -154,32 +144,52 @@ Theorem C14_f16_roundtrip :
 Proof. exact f16_roundtrip. Qed.
 Print Assumptions C14_f16_roundtrip.
 
-Theorem C14_f16_nan_preserved :
-  forall h, h < 65536 ->
-    (is_nan16 h = true -> is_nan32 (f16_unpack h) = true /\ is_nan16 (f16_pack (f16_unpack h)) = true) /\
-    (is_nan16 h = false -> is_nan32 (f16_unpack h) = false).
-Proof. exact f16_nan_preserved. Qed.
-Print Assumptions C14_f16_nan_preserved.
+(* Half precision, all 65 536 halves: NaN-ness preserved, unpack exact on finite halves, sign bit and infinities kept *)
+Theorem C14_f16_all_halves :
+  (forall h, h < 65536 ->
+     (is_nan16 h = true -> is_nan32 (f16_unpack h) = true /\ is_nan16 (f16_pack (f16_unpack h)) = true) /\
+     (is_nan16 h = false -> is_nan32 (f16_unpack h) = false)) /\
+  (* unpack is exact on finite halves, keeps the sign bit, maps +-inf to +-inf *)
+  (forall h, h < 65536 -> N.land h 32767 < 31744 ->
+     val32 (N.land (f16_unpack h) 2147483647) = N.shiftl (val16 (N.land h 32767)) 125) /\
+  (forall h, h < 65536 ->
+     N.shiftr (f16_unpack h) 31 = N.shiftr h 15 /\ f16_unpack h < 4294967296 /\
+     (N.land h 32767 = 31744 -> N.land (f16_unpack h) 2147483647 = F32INF)).
+Proof.
+  split; [|split].
+  - (* f16_nan_preserved *) exact f16_nan_preserved.
+  - (* f16_unpack_exact *) exact f16_unpack_exact.
+  - (* f16_unpack_sign_inf *) exact f16_unpack_sign_inf.
+Qed.
+Print Assumptions C14_f16_all_halves.
 
-(* unpack is exact on finite halves, keeps the sign bit, maps +-inf to +-inf *)
-Theorem C14_f16_unpack_exact :
-  forall h, h < 65536 -> N.land h 32767 < 31744 ->
-    val32 (N.land (f16_unpack h) 2147483647) = N.shiftl (val16 (N.land h 32767)) 125.
-Proof. exact f16_unpack_exact. Qed.
-Print Assumptions C14_f16_unpack_exact.
 
-Theorem C14_f16_unpack_sign_inf :
-  forall h, h < 65536 ->
-    N.shiftr (f16_unpack h) 31 = N.shiftr h 15 /\ f16_unpack h < 4294967296 /\
-    (N.land h 32767 = 31744 -> N.land (f16_unpack h) 2147483647 = F32INF).
-Proof. exact f16_unpack_sign_inf. Qed.
-Print Assumptions C14_f16_unpack_sign_inf.
 
-(* pack, for ALL 2^32 inputs: the sign bit is copied, the magnitude goes through pack_mag *)
-Theorem C14_f16_pack_sign :
-  forall x, x < 4294967296 -> f16_pack x = pack_mag (x mod 2147483648) + 32768 * (x / 2147483648).
-Proof. exact f16_pack_sign. Qed.
-Print Assumptions C14_f16_pack_sign.
+(* Half precision, ALL 2^32 inputs: sign copied; faithful; monotone; 0x7C00 exactly from 65520 on; inf/NaN; encodings order preserving *)
+Theorem C14_f16_all_binary32 :
+  (* pack, for ALL 2^32 inputs: the sign bit is copied, the magnitude goes through pack_mag *)
+  (forall x, x < 4294967296 -> f16_pack x = pack_mag (x mod 2147483648) + 32768 * (x / 2147483648)) /\
+  (* faithful (what C14 demands): the exact value lies between the two neighbours of the result *)
+  (forall y, y < F32INF ->
+     (pack_mag y = 0 \/ val16 (pack_mag y - 1) * 2 ^ 125 <= val32 y) /\
+     (pack_mag y = 31744 \/ val32 y <= val16 (pack_mag y + 1) * 2 ^ 125)) /\
+  (forall y y', y <= y' -> y' < F32INF -> pack_mag y <= pack_mag y') /\
+  (* out-of-range magnitudes go to infinity: exactly the finite inputs >= 65520 (bit pattern 0x477FF000) *)
+  (forall y, y < 2139095040 -> (pack_mag y = 31744 <-> 1199566848 <= y)) /\
+  (forall y, F32INF <= y -> y < 2147483648 ->
+     (y = F32INF -> pack_mag y = 31744) /\ (F32INF < y -> pack_mag y = 32256 /\ is_nan16 32256 = true)) /\
+  (* the encodings are order preserving, so statements on bit patterns are statements on values *)
+  ((forall y y', y <= y' -> val32 y <= val32 y') /\ (forall h h', h <= h' -> val16 h <= val16 h')).
+Proof.
+  split; [|split; [|split; [|split; [|split]]]].
+  - (* f16_pack_sign *) exact f16_pack_sign.
+  - (* f16_faithful *) exact f16_faithful.
+  - (* f16_monotone *) exact f16_monotone.
+  - (* f16_overflow_to_inf *) exact pack_mag_overflow.
+  - (* f16_inf_nan *) exact f16_inf_nan.
+  - (* f16_encodings_monotone *) split; [exact val32_mono|exact val16_mono].
+Qed.
+Print Assumptions C14_f16_all_binary32.
 
 (* the rule the C/C++ code implements, for every finite magnitude: the result h is finite-or-0x7C00 and the exact
    value lies in [midpoint(h-1,h), midpoint(h,h+1)): round to nearest, ties away from zero; 0x7C00 when >= 65520 *)
@@ -191,40 +201,14 @@ Theorem C14_f16_rounding_rule :
 Proof. exact f16_rounding_rule. Qed.
 Print Assumptions C14_f16_rounding_rule.
 
-(* faithful (what C14 demands): the exact value lies between the two neighbours of the result *)
-Theorem C14_f16_faithful :
-  forall y, y < F32INF ->
-    (pack_mag y = 0 \/ val16 (pack_mag y - 1) * 2 ^ 125 <= val32 y) /\
-    (pack_mag y = 31744 \/ val32 y <= val16 (pack_mag y + 1) * 2 ^ 125).
-Proof. exact f16_faithful. Qed.
-Print Assumptions C14_f16_faithful.
 
-Theorem C14_f16_monotone :
-  forall y y', y <= y' -> y' < F32INF -> pack_mag y <= pack_mag y'.
-Proof. exact f16_monotone. Qed.
-Print Assumptions C14_f16_monotone.
 
-(* out-of-range magnitudes go to infinity: exactly the finite inputs >= 65520 (bit pattern 0x477FF000) *)
-Theorem C14_f16_overflow_to_inf :
-  forall y, y < 2139095040 -> (pack_mag y = 31744 <-> 1199566848 <= y).
-Proof. exact pack_mag_overflow. Qed.
-Print Assumptions C14_f16_overflow_to_inf.
 
 Example C14_f16_overflow_threshold_is_65520 :
   val32 1199566848 = 65520 * 2 ^ 149 /\ val16 31743 * 2 ^ 125 = 65504 * 2 ^ 149 /\ val16 31744 * 2 ^ 125 = 65536 * 2 ^ 149.
 Proof. vm_compute. auto. Qed.
 
-Theorem C14_f16_inf_nan :
-  forall y, F32INF <= y -> y < 2147483648 ->
-    (y = F32INF -> pack_mag y = 31744) /\ (F32INF < y -> pack_mag y = 32256 /\ is_nan16 32256 = true).
-Proof. exact f16_inf_nan. Qed.
-Print Assumptions C14_f16_inf_nan.
 
-(* the encodings are order preserving, so statements on bit patterns are statements on values *)
-Theorem C14_f16_encodings_monotone :
-  (forall y y', y <= y' -> val32 y <= val32 y') /\ (forall h h', h <= h' -> val16 h <= val16 h').
-Proof. split; [exact val32_mono|exact val16_mono]. Qed.
-Print Assumptions C14_f16_encodings_monotone.
 
 (* ---------------------------------------------------------------------------------------------
    C++: bitspan / const_bitspan (Prims/CppPrims.v; a span = bytes from data_.data() on, data_.size(), offset_bits_).
@@ -258,18 +242,42 @@ Theorem C14_cpp_setZeros_exact :
 Proof. exact setZeros_exact_b. Qed.
 Print Assumptions C14_cpp_setZeros_exact.
 
-(* bitspan::padAndMoveToAlignment(n): zero bits up to the next multiple of n, offset advanced onto it *)
-Theorem C14_cpp_pad_and_move_spec :
-  forall (s : span) (n : N),
-    span_okb s = true -> (1 <=? n) && (n <=? 255) = true ->
-    let pad := (n - sp_off s mod n) mod n in
-    if sp_bits s <? pad
-    then padAndMoveToAlignment s n = Some (inr TooSmall)
-    else exists r, padAndMoveToAlignment s n = Some (inl (r, sp_off s + pad)) /\ (sp_off s + pad) mod n = 0 /\
-           List.length r = List.length (sp_data s) /\
-           forall p, bit r p = if (sp_off s <=? p) && (p <? sp_off s + pad) then false else bit (sp_data s) p.
-Proof. exact pad_and_move_spec_b. Qed.
-Print Assumptions C14_cpp_pad_and_move_spec.
+(* C++: padAndMoveToAlignment; subspan(bits), subspan_bytes(n), subspan(bits_at, size_bits) *)
+Theorem C14_cpp_pad_and_subspans :
+  (* bitspan::padAndMoveToAlignment(n): zero bits up to the next multiple of n, offset advanced onto it *)
+  (forall (s : span) (n : N),
+     span_okb s = true -> (1 <=? n) && (n <=? 255) = true ->
+     let pad := (n - sp_off s mod n) mod n in
+     if sp_bits s <? pad
+     then padAndMoveToAlignment s n = Some (inr TooSmall)
+     else exists r, padAndMoveToAlignment s n = Some (inl (r, sp_off s + pad)) /\ (sp_off s + pad) mod n = 0 /\
+            List.length r = List.length (sp_data s) /\
+            forall p, bit r p = if (sp_off s <=? p) && (p <? sp_off s + pad) then false else bit (sp_data s) p) /\
+  (* subspan(bits), subspan_bytes(n), subspan(bits_at, size_bits): the new pointer/offset address the same bits,
+     the new size never reaches past the parent's; subspan(bits_at, size_bits) floors the byte size as the source does *)
+  (forall (s : span) (bits size_bytes bits_at size_bits : N),
+     span_okb s = true -> (sp_off s + bits <? two64) && (sp_off s + bits_at <? two64) && (size_bits + 8 <? two64) = true ->
+     (let k := (sp_off s + bits) / 8 in
+      let s' := subspan s bits in
+      sp_data s' = skipn (N.to_nat k) (sp_data s) /\ sp_off s' = (sp_off s + bits) mod 8 /\
+      sp_size s' = sp_size s - k /\ 8 * k + sp_off s' = sp_off s + bits /\
+      (forall p, bit (sp_data s') p = bit (sp_data s) (8 * k + p)) /\
+      sp_bits s' = sp_size s * 8 - (sp_off s + bits)) /\
+     (let s' := subspan_bytes s size_bytes in
+      sp_data s' = skipn (N.to_nat (sp_off s / 8)) (sp_data s) /\ sp_off s' = sp_off s mod 8 /\
+      sp_size s' = N.min size_bytes (sp_size s - sp_off s / 8)) /\
+     (let k := (sp_off s + bits_at) / 8 in
+      let o := (sp_off s + bits_at) mod 8 in
+      if (sp_size s <? k) || ((sp_size s - k) * 8 <? o + size_bits)
+      then subspan2 s bits_at size_bits = inr TooSmall
+      else subspan2 s bits_at size_bits = inl (mkspan (skipn (N.to_nat k) (sp_data s)) ((o + size_bits) / 8) o) /\
+           k + (o + size_bits) / 8 <= sp_size s)).
+Proof.
+  split.
+  - (* cpp_pad_and_move_spec *) exact pad_and_move_spec_b.
+  - (* cpp_subspan_spec *) exact subspans_spec_b.
+Qed.
+Print Assumptions C14_cpp_pad_and_subspans.
 
 (* setUxx/setIxx/setBit/getUxx/getIxx/getBit/getBits compute exactly what the C functions compute on
    (data, data_.size(), offset): the C theorems above therefore hold for them verbatim *)
@@ -291,42 +299,83 @@ Theorem C14_cpp_members_are_c :
 Proof. exact cpp_members_are_c_b. Qed.
 Print Assumptions C14_cpp_members_are_c.
 
-(* subspan(bits), subspan_bytes(n), subspan(bits_at, size_bits): the new pointer/offset address the same bits,
-   the new size never reaches past the parent's; subspan(bits_at, size_bits) floors the byte size as the source does *)
-Theorem C14_cpp_subspan_spec :
-  forall (s : span) (bits size_bytes bits_at size_bits : N),
-    span_okb s = true -> (sp_off s + bits <? two64) && (sp_off s + bits_at <? two64) && (size_bits + 8 <? two64) = true ->
-    (let k := (sp_off s + bits) / 8 in
-     let s' := subspan s bits in
-     sp_data s' = skipn (N.to_nat k) (sp_data s) /\ sp_off s' = (sp_off s + bits) mod 8 /\
-     sp_size s' = sp_size s - k /\ 8 * k + sp_off s' = sp_off s + bits /\
-     (forall p, bit (sp_data s') p = bit (sp_data s) (8 * k + p)) /\
-     sp_bits s' = sp_size s * 8 - (sp_off s + bits)) /\
-    (let s' := subspan_bytes s size_bytes in
-     sp_data s' = skipn (N.to_nat (sp_off s / 8)) (sp_data s) /\ sp_off s' = sp_off s mod 8 /\
-     sp_size s' = N.min size_bytes (sp_size s - sp_off s / 8)) /\
-    (let k := (sp_off s + bits_at) / 8 in
-     let o := (sp_off s + bits_at) mod 8 in
-     if (sp_size s <? k) || ((sp_size s - k) * 8 <? o + size_bits)
-     then subspan2 s bits_at size_bits = inr TooSmall
-     else subspan2 s bits_at size_bits = inl (mkspan (skipn (N.to_nat k) (sp_data s)) ((o + size_bits) / 8) o) /\
-          k + (o + size_bits) / 8 <= sp_size s).
-Proof. exact subspans_spec_b. Qed.
-Print Assumptions C14_cpp_subspan_spec.
 
-(* ---------------------------------------------------------------------------------------------
-   Python: Serializer / Deserializer / ZeroExtendingBuffer as state machines (Prims/PyPrims.v).
-   Inv s       = every bit of the buffer at a position >= the cursor is zero (true of Serializer.new, preserved by every add method)
-   appended s s' n f = the cursor advanced by n, the buffer kept its length, the bits below the old cursor are unchanged,
-                       the n bits from the old cursor on are f 0 .. f (n-1), everything after is zero.
-   The capacity hypotheses are what Serializer.new(size) provides: one spare byte after the last byte written. *)
-Theorem C14_py_new_inv : forall n, Inv (ser_new n) /\ bytes_ok (s_buf (ser_new n)).
-Proof. exact ser_new_inv. Qed.
-Print Assumptions C14_py_new_inv.
+(* Python Serializer: new; invariant preserved; every add method appends exactly the bits of its argument; pad_to_alignment *)
+Theorem C14_py_serializer_members :
+  (* ---------------------------------------------------------------------------------------------
+     Python: Serializer / Deserializer / ZeroExtendingBuffer as state machines (Prims/PyPrims.v).
+     Inv s       = every bit of the buffer at a position >= the cursor is zero (true of Serializer.new, preserved by every add method)
+     appended s s' n f = the cursor advanced by n, the buffer kept its length, the bits below the old cursor are unchanged,
+                         the n bits from the old cursor on are f 0 .. f (n-1), everything after is zero.
+     The capacity hypotheses are what Serializer.new(size) provides: one spare byte after the last byte written. *)
+  (forall n, Inv (ser_new n) /\ bytes_ok (s_buf (ser_new n))) /\
+  (forall s s' n f, appended s s' n f -> Inv s') /\
+  (forall (s : ser) (value bits : N),
+     Inv s -> bytes_ok (s_buf s) -> 1 <= bits -> s_off s / 8 + (bits + 7) / 8 < blen (s_buf s) ->
+     exists s', add_unaligned_unsigned s value bits = Some s' /\ appended s s' bits (N.testbit value)) /\
+  (forall (s : ser) (x : bool),
+     Inv s -> bytes_ok (s_buf s) -> s_off s / 8 < blen (s_buf s) ->
+     exists s', add_unaligned_bit s x = Some s' /\ appended s s' 1 (fun _ => x)) /\
+  (forall (s : ser) (x : bytes),
+     Inv s -> bytes_ok (s_buf s) -> bytes_ok x -> s_off s mod 8 = 0 -> s_off s / 8 + blen x <= blen (s_buf s) ->
+     exists s', add_aligned_bytes s x = Some s' /\ appended s s' (8 * blen x) (bit x)) /\
+  (forall (s : ser) (value bits : N),
+     Inv s -> bytes_ok (s_buf s) -> 1 <= bits -> s_off s mod 8 = 0 -> s_off s / 8 + (bits + 7) / 8 <= blen (s_buf s) ->
+     exists s', add_aligned_unsigned s value bits = Some s' /\ appended s s' bits (N.testbit value)) /\
+  (* signed values in range are appended in two's complement, aligned or not *)
+  (forall (aligned : bool) (s : ser) (value : Z) (bits : N),
+     Inv s -> bytes_ok (s_buf s) -> 2 <= bits -> (- 2 ^ (Z.of_N bits - 1) <= value < 2 ^ (Z.of_N bits - 1))%Z ->
+     (if aligned then s_off s mod 8 = 0 /\ s_off s / 8 + (bits + 7) / 8 <= blen (s_buf s)
+      else s_off s / 8 + (bits + 7) / 8 < blen (s_buf s)) ->
+     exists s', (if aligned then add_aligned_signed s value bits else add_unaligned_signed s value bits) = Some s' /\
+                appended s s' bits (fun k => Z.testbit value (Z.of_N k))) /\
+  (* pad_to_alignment moves the cursor onto the next multiple of n; the bits skipped are zero, the buffer is unchanged *)
+  (forall (s : ser) (n : N),
+     Inv s -> bytes_ok (s_buf s) -> 0 < n ->
+     let pad := (n - s_off s mod n) mod n in
+     (s_off s + pad + 7) / 8 <= blen (s_buf s) ->
+     pad_to_alignment s n = Some (mkser (s_buf s) (s_off s + pad)) /\ (s_off s + pad) mod n = 0 /\
+     Inv (mkser (s_buf s) (s_off s + pad))) /\
+  (* the standard-width methods: add_aligned_u8 (x <= 255: NumPy rejects larger), u16/u32/u64 (truncating), i8..i64 (two's complement) *)
+  (forall (s : ser) (x : N),
+     Inv s -> bytes_ok (s_buf s) -> x <= 255 -> s_off s mod 8 = 0 -> s_off s / 8 < blen (s_buf s) ->
+     exists s', add_aligned_u8 s x = Some s' /\ appended s s' 8 (N.testbit x)) /\
+  (forall (s : ser) (x : N),
+     Inv s -> bytes_ok (s_buf s) -> s_off s mod 8 = 0 ->
+     (s_off s / 8 + 2 <= blen (s_buf s) -> exists s', add_aligned_u16 s x = Some s' /\ appended s s' 16 (N.testbit x)) /\
+     (s_off s / 8 + 4 <= blen (s_buf s) -> exists s', add_aligned_u32 s x = Some s' /\ appended s s' 32 (N.testbit x)) /\
+     (s_off s / 8 + 8 <= blen (s_buf s) -> exists s', add_aligned_u64 s x = Some s' /\ appended s s' 64 (N.testbit x))) /\
+  (forall (w : N) (s : ser) (x : Z),
+     (w = 8 \/ w = 16 \/ w = 32 \/ w = 64) ->
+     Inv s -> bytes_ok (s_buf s) -> s_off s mod 8 = 0 -> s_off s / 8 + w / 8 <= blen (s_buf s) ->
+     (- 2 ^ (Z.of_N w - 1) <= x < 2 ^ (Z.of_N w - 1))%Z ->
+     exists s', add_aligned_ixx w s x = Some s' /\ appended s s' w (fun k => Z.testbit x (Z.of_N k))) /\
+  (* arrays of bits (numpy.packbits / unpackbits, bitorder="little"): bit k of the array goes to / comes from cursor + k *)
+  (forall (s : ser) (x : list bool),
+     Inv s -> bytes_ok (s_buf s) ->
+     (s_off s / 8 + (N.of_nat (length x) + 7) / 8 < blen (s_buf s) ->
+      exists s', add_unaligned_array_of_bits s x = Some s' /\ appended s s' (N.of_nat (length x)) (nthb x)) /\
+     (s_off s mod 8 = 0 -> s_off s / 8 + (N.of_nat (length x) + 7) / 8 <= blen (s_buf s) ->
+      exists s', add_aligned_array_of_bits s x = Some s' /\ appended s s' (N.of_nat (length x)) (nthb x))).
+Proof.
+  split; [|split; [|split; [|split; [|split; [|split; [|split; [|split; [|split; [|split; [|split]]]]]]]]]].
+  - (* py_new_inv *) exact ser_new_inv.
+  - (* py_appended_preserves_inv *) exact appended_inv.
+  - (* py_add_unaligned_unsigned_appends *) exact add_unaligned_unsigned_appends.
+  - (* py_add_unaligned_bit_appends *) exact add_unaligned_bit_appends.
+  - (* py_add_aligned_bytes_appends *) exact add_aligned_bytes_appends.
+  - (* py_add_aligned_unsigned_appends *) exact add_aligned_unsigned_appends.
+  - (* py_add_signed_appends *) exact add_signed_appends.
+  - (* py_pad_to_alignment_spec *) exact pad_to_alignment_spec.
+  - (* py_add_aligned_u8_appends *) exact add_aligned_u8_appends.
+  - (* py_add_aligned_u16_u32_u64_appends *) intros s x HI Hok Hal. split; [|split]; intros Hcap;
+        [exact (add_aligned_u16_appends s x HI Hok Hal Hcap)|exact (add_aligned_u32_appends s x HI Hok Hal Hcap)|
+         exact (add_aligned_u64_appends s x HI Hok Hal Hcap)].
+  - (* py_add_aligned_ixx_appends *) exact add_aligned_ixx_appends.
+  - (* py_add_array_of_bits_appends *) intros s x HI Hok. split; [exact (add_unaligned_array_of_bits_appends s x HI Hok)|exact (add_aligned_array_of_bits_appends s x HI Hok)].
+Qed.
+Print Assumptions C14_py_serializer_members.
 
-Theorem C14_py_appended_preserves_inv : forall s s' n f, appended s s' n f -> Inv s'.
-Proof. exact appended_inv. Qed.
-Print Assumptions C14_py_appended_preserves_inv.
 
 (* the unaligned byte loop (`buf[i] |= (b << left) & 0xFF; buf[i+1] = b >> right`) appends exactly the bytes, at EVERY bit offset *)
 Theorem C14_py_add_unaligned_bytes_appends :
@@ -336,185 +385,222 @@ Theorem C14_py_add_unaligned_bytes_appends :
 Proof. exact add_unaligned_bytes_appends. Qed.
 Print Assumptions C14_py_add_unaligned_bytes_appends.
 
-Theorem C14_py_add_unaligned_unsigned_appends :
-  forall (s : ser) (value bits : N),
-    Inv s -> bytes_ok (s_buf s) -> 1 <= bits -> s_off s / 8 + (bits + 7) / 8 < blen (s_buf s) ->
-    exists s', add_unaligned_unsigned s value bits = Some s' /\ appended s s' bits (N.testbit value).
-Proof. exact add_unaligned_unsigned_appends. Qed.
-Print Assumptions C14_py_add_unaligned_unsigned_appends.
 
-Theorem C14_py_add_unaligned_bit_appends :
-  forall (s : ser) (x : bool),
-    Inv s -> bytes_ok (s_buf s) -> s_off s / 8 < blen (s_buf s) ->
-    exists s', add_unaligned_bit s x = Some s' /\ appended s s' 1 (fun _ => x).
-Proof. exact add_unaligned_bit_appends. Qed.
-Print Assumptions C14_py_add_unaligned_bit_appends.
 
-Theorem C14_py_add_aligned_bytes_appends :
-  forall (s : ser) (x : bytes),
-    Inv s -> bytes_ok (s_buf s) -> bytes_ok x -> s_off s mod 8 = 0 -> s_off s / 8 + blen x <= blen (s_buf s) ->
-    exists s', add_aligned_bytes s x = Some s' /\ appended s s' (8 * blen x) (bit x).
-Proof. exact add_aligned_bytes_appends. Qed.
-Print Assumptions C14_py_add_aligned_bytes_appends.
 
-Theorem C14_py_add_aligned_unsigned_appends :
-  forall (s : ser) (value bits : N),
-    Inv s -> bytes_ok (s_buf s) -> 1 <= bits -> s_off s mod 8 = 0 -> s_off s / 8 + (bits + 7) / 8 <= blen (s_buf s) ->
-    exists s', add_aligned_unsigned s value bits = Some s' /\ appended s s' bits (N.testbit value).
-Proof. exact add_aligned_unsigned_appends. Qed.
-Print Assumptions C14_py_add_aligned_unsigned_appends.
 
-(* signed values in range are appended in two's complement, aligned or not *)
-Theorem C14_py_add_signed_appends :
-  forall (aligned : bool) (s : ser) (value : Z) (bits : N),
-    Inv s -> bytes_ok (s_buf s) -> 2 <= bits -> (- 2 ^ (Z.of_N bits - 1) <= value < 2 ^ (Z.of_N bits - 1))%Z ->
-    (if aligned then s_off s mod 8 = 0 /\ s_off s / 8 + (bits + 7) / 8 <= blen (s_buf s)
-     else s_off s / 8 + (bits + 7) / 8 < blen (s_buf s)) ->
-    exists s', (if aligned then add_aligned_signed s value bits else add_unaligned_signed s value bits) = Some s' /\
-               appended s s' bits (fun k => Z.testbit value (Z.of_N k)).
-Proof. exact add_signed_appends. Qed.
-Print Assumptions C14_py_add_signed_appends.
 
-(* pad_to_alignment moves the cursor onto the next multiple of n; the bits skipped are zero, the buffer is unchanged *)
-Theorem C14_py_pad_to_alignment_spec :
-  forall (s : ser) (n : N),
-    Inv s -> bytes_ok (s_buf s) -> 0 < n ->
-    let pad := (n - s_off s mod n) mod n in
-    (s_off s + pad + 7) / 8 <= blen (s_buf s) ->
-    pad_to_alignment s n = Some (mkser (s_buf s) (s_off s + pad)) /\ (s_off s + pad) mod n = 0 /\
-    Inv (mkser (s_buf s) (s_off s + pad)).
-Proof. exact pad_to_alignment_spec. Qed.
-Print Assumptions C14_py_pad_to_alignment_spec.
 
 Example C14_py_hypotheses_satisfiable :
   exists s', add_unaligned_unsigned (ser_new 2) 5 3 = Some s' /\ s_buf s' = [5; 0; 0] /\ s_off s' = 3.
 Proof. eexists. vm_compute. auto. Qed.
 
-(* Deserializer: bits beyond the end of the buffer read as zero (`bit` is false there), for every offset and length *)
-Theorem C14_py_fetch_unaligned_bytes_spec :
-  forall (d : des) (count : N),
-    bytes_ok (d_buf d) ->
-    exists out d', fetch_unaligned_bytes d count = Some (out, d') /\ d_buf d' = d_buf d /\ d_off d' = d_off d + 8 * count /\
-      blen out = count /\ bytes_ok out /\ forall k, bit out k = (k <? 8 * count) && bit (d_buf d) (d_off d + k).
-Proof. exact fetch_unaligned_bytes_spec. Qed.
-Print Assumptions C14_py_fetch_unaligned_bytes_spec.
-
-Theorem C14_py_fetch_unaligned_unsigned_spec :
-  forall (d : des) (bits : N),
-    bytes_ok (d_buf d) -> 1 <= bits ->
-    exists v d', fetch_unaligned_unsigned d bits = Some (v, d') /\ d_buf d' = d_buf d /\ d_off d' = d_off d + bits /\
-      forall k, N.testbit v k = (k <? bits) && bit (d_buf d) (d_off d + k).
-Proof. exact fetch_unaligned_unsigned_spec. Qed.
-Print Assumptions C14_py_fetch_unaligned_unsigned_spec.
-
-Theorem C14_py_fetch_aligned_unsigned_spec :
-  forall (d : des) (bits : N),
-    bytes_ok (d_buf d) -> 1 <= bits -> d_off d mod 8 = 0 ->
-    exists v d', fetch_aligned_unsigned d bits = Some (v, d') /\ d_buf d' = d_buf d /\ d_off d' = d_off d + bits /\
-      forall k, N.testbit v k = (k <? bits) && bit (d_buf d) (d_off d + k).
-Proof. exact fetch_aligned_unsigned_spec. Qed.
-Print Assumptions C14_py_fetch_aligned_unsigned_spec.
-
-(* signed fetches sign-extend with the same function as the C target *)
-Theorem C14_py_fetch_signed_spec :
-  forall (aligned : bool) (d : des) (bits : N),
-    bytes_ok (d_buf d) -> 2 <= bits -> (aligned = true -> d_off d mod 8 = 0) ->
-    exists u z d', (if aligned then fetch_aligned_unsigned d bits else fetch_unaligned_unsigned d bits) = Some (u, d') /\
-      (if aligned then fetch_aligned_signed d bits else fetch_unaligned_signed d bits) = Some (z, d') /\
-      z = sign_extend bits u /\ u < 2 ^ bits /\ d_off d' = d_off d + bits.
-Proof. exact fetch_signed_spec. Qed.
-Print Assumptions C14_py_fetch_signed_spec.
-
-Theorem C14_py_fetch_unaligned_bit_spec :
-  forall d : des, fetch_unaligned_bit d = (bit (d_buf d) (d_off d), mkdes (d_buf d) (d_off d + 1)).
-Proof. exact fetch_unaligned_bit_spec. Qed.
-Print Assumptions C14_py_fetch_unaligned_bit_spec.
-
-(* the standard-width methods: add_aligned_u8 (x <= 255: NumPy rejects larger), u16/u32/u64 (truncating), i8..i64 (two's complement) *)
-Theorem C14_py_add_aligned_u8_appends :
-  forall (s : ser) (x : N),
-    Inv s -> bytes_ok (s_buf s) -> x <= 255 -> s_off s mod 8 = 0 -> s_off s / 8 < blen (s_buf s) ->
-    exists s', add_aligned_u8 s x = Some s' /\ appended s s' 8 (N.testbit x).
-Proof. exact add_aligned_u8_appends. Qed.
-Print Assumptions C14_py_add_aligned_u8_appends.
-
-Theorem C14_py_add_aligned_u16_u32_u64_appends :
-  forall (s : ser) (x : N),
-    Inv s -> bytes_ok (s_buf s) -> s_off s mod 8 = 0 ->
-    (s_off s / 8 + 2 <= blen (s_buf s) -> exists s', add_aligned_u16 s x = Some s' /\ appended s s' 16 (N.testbit x)) /\
-    (s_off s / 8 + 4 <= blen (s_buf s) -> exists s', add_aligned_u32 s x = Some s' /\ appended s s' 32 (N.testbit x)) /\
-    (s_off s / 8 + 8 <= blen (s_buf s) -> exists s', add_aligned_u64 s x = Some s' /\ appended s s' 64 (N.testbit x)).
+(* Python Deserializer: every fetch method returns the bits at the cursor of the zero-extended buffer; signed fetches sign-extend with the C function *)
+Theorem C14_py_deserializer_members :
+  (* Deserializer: bits beyond the end of the buffer read as zero (`bit` is false there), for every offset and length *)
+  (forall (d : des) (count : N),
+     bytes_ok (d_buf d) ->
+     exists out d', fetch_unaligned_bytes d count = Some (out, d') /\ d_buf d' = d_buf d /\ d_off d' = d_off d + 8 * count /\
+       blen out = count /\ bytes_ok out /\ forall k, bit out k = (k <? 8 * count) && bit (d_buf d) (d_off d + k)) /\
+  (forall (d : des) (bits : N),
+     bytes_ok (d_buf d) -> 1 <= bits ->
+     exists v d', fetch_unaligned_unsigned d bits = Some (v, d') /\ d_buf d' = d_buf d /\ d_off d' = d_off d + bits /\
+       forall k, N.testbit v k = (k <? bits) && bit (d_buf d) (d_off d + k)) /\
+  (forall (d : des) (bits : N),
+     bytes_ok (d_buf d) -> 1 <= bits -> d_off d mod 8 = 0 ->
+     exists v d', fetch_aligned_unsigned d bits = Some (v, d') /\ d_buf d' = d_buf d /\ d_off d' = d_off d + bits /\
+       forall k, N.testbit v k = (k <? bits) && bit (d_buf d) (d_off d + k)) /\
+  (* signed fetches sign-extend with the same function as the C target *)
+  (forall (aligned : bool) (d : des) (bits : N),
+     bytes_ok (d_buf d) -> 2 <= bits -> (aligned = true -> d_off d mod 8 = 0) ->
+     exists u z d', (if aligned then fetch_aligned_unsigned d bits else fetch_unaligned_unsigned d bits) = Some (u, d') /\
+       (if aligned then fetch_aligned_signed d bits else fetch_unaligned_signed d bits) = Some (z, d') /\
+       z = sign_extend bits u /\ u < 2 ^ bits /\ d_off d' = d_off d + bits) /\
+  (forall d : des, fetch_unaligned_bit d = (bit (d_buf d) (d_off d), mkdes (d_buf d) (d_off d + 1))) /\
+  (* fetch_aligned_u8..u64 return the w bits at the cursor (zero beyond the end); i8..i64 sign-extend them *)
+  (forall (w : N) (d : des),
+     (w = 8 \/ w = 16 \/ w = 32 \/ w = 64) -> bytes_ok (d_buf d) -> d_off d mod 8 = 0 ->
+     exists u d', fetch_aligned_uxx w d = Some (u, d') /\
+       (d_buf d' = d_buf d /\ d_off d' = d_off d + w /\ forall k, N.testbit u k = (k <? w) && bit (d_buf d) (d_off d + k)) /\
+       fetch_aligned_ixx w d = Some (sign_extend w u, d')) /\
+  (forall (d : des) (count : N),
+     bytes_ok (d_buf d) ->
+     exists out d', fetch_unaligned_array_of_bits d count = Some (out, d') /\ d_buf d' = d_buf d /\ d_off d' = d_off d + count /\
+       N.of_nat (length out) = count /\ forall k, nthb out k = (k <? count) && bit (d_buf d) (d_off d + k)).
 Proof.
-  intros s x HI Hok Hal. split; [|split]; intros Hcap;
-    [exact (add_aligned_u16_appends s x HI Hok Hal Hcap)|exact (add_aligned_u32_appends s x HI Hok Hal Hcap)|
-     exact (add_aligned_u64_appends s x HI Hok Hal Hcap)].
+  split; [|split; [|split; [|split; [|split; [|split]]]]].
+  - (* py_fetch_unaligned_bytes_spec *) exact fetch_unaligned_bytes_spec.
+  - (* py_fetch_unaligned_unsigned_spec *) exact fetch_unaligned_unsigned_spec.
+  - (* py_fetch_aligned_unsigned_spec *) exact fetch_aligned_unsigned_spec.
+  - (* py_fetch_signed_spec *) exact fetch_signed_spec.
+  - (* py_fetch_unaligned_bit_spec *) exact fetch_unaligned_bit_spec.
+  - (* py_fetch_aligned_uxx_ixx_spec *) exact fetch_aligned_ixx_spec.
+  - (* py_fetch_unaligned_array_of_bits_spec *) exact fetch_unaligned_array_of_bits_spec.
 Qed.
-Print Assumptions C14_py_add_aligned_u16_u32_u64_appends.
+Print Assumptions C14_py_deserializer_members.
 
-Theorem C14_py_add_aligned_ixx_appends :
-  forall (w : N) (s : ser) (x : Z),
-    (w = 8 \/ w = 16 \/ w = 32 \/ w = 64) ->
-    Inv s -> bytes_ok (s_buf s) -> s_off s mod 8 = 0 -> s_off s / 8 + w / 8 <= blen (s_buf s) ->
-    (- 2 ^ (Z.of_N w - 1) <= x < 2 ^ (Z.of_N w - 1))%Z ->
-    exists s', add_aligned_ixx w s x = Some s' /\ appended s s' w (fun k => Z.testbit x (Z.of_N k)).
-Proof. exact add_aligned_ixx_appends. Qed.
-Print Assumptions C14_py_add_aligned_ixx_appends.
 
-(* fetch_aligned_u8..u64 return the w bits at the cursor (zero beyond the end); i8..i64 sign-extend them *)
-Theorem C14_py_fetch_aligned_uxx_ixx_spec :
-  forall (w : N) (d : des),
-    (w = 8 \/ w = 16 \/ w = 32 \/ w = 64) -> bytes_ok (d_buf d) -> d_off d mod 8 = 0 ->
-    exists u d', fetch_aligned_uxx w d = Some (u, d') /\
-      (d_buf d' = d_buf d /\ d_off d' = d_off d + w /\ forall k, N.testbit u k = (k <? w) && bit (d_buf d) (d_off d + k)) /\
-      fetch_aligned_ixx w d = Some (sign_extend w u, d').
-Proof. exact fetch_aligned_ixx_spec. Qed.
-Print Assumptions C14_py_fetch_aligned_uxx_ixx_spec.
 
-(* arrays of bits (numpy.packbits / unpackbits, bitorder="little"): bit k of the array goes to / comes from cursor + k *)
-Theorem C14_py_add_array_of_bits_appends :
-  forall (s : ser) (x : list bool),
-    Inv s -> bytes_ok (s_buf s) ->
-    (s_off s / 8 + (N.of_nat (length x) + 7) / 8 < blen (s_buf s) ->
-     exists s', add_unaligned_array_of_bits s x = Some s' /\ appended s s' (N.of_nat (length x)) (nthb x)) /\
-    (s_off s mod 8 = 0 -> s_off s / 8 + (N.of_nat (length x) + 7) / 8 <= blen (s_buf s) ->
-     exists s', add_aligned_array_of_bits s x = Some s' /\ appended s s' (N.of_nat (length x)) (nthb x)).
+
+
+
+
+
+
+
+
+(* Python fork_bytes: the forked (de)serializer works on a window of the same bytes *)
+Theorem C14_py_fork_bytes :
+  (* fork_bytes: the forked (de)serializer works on a window of the same bytes *)
+  (forall (s : ser) (n : N),
+     Inv s -> s_off s mod 8 = 0 ->
+     if blen (s_buf s) <? s_off s / 8 + n + 1 then ser_fork_bytes s n = None
+     else exists f, ser_fork_bytes s n = Some f /\ s_off f = 0 /\ blen (s_buf f) = n + 1 /\ Inv f /\
+            forall p, bit (s_buf f) p = (p <? 8 * (n + 1)) && bit (s_buf s) (s_off s + p)) /\
+  (forall s f : ser,
+     s_off s mod 8 = 0 -> s_off s / 8 + blen (s_buf f) <= blen (s_buf s) ->
+     s_off (ser_join s f) = s_off s /\ length (s_buf (ser_join s f)) = length (s_buf s) /\
+     forall p, bit (s_buf (ser_join s f)) p =
+               if (s_off s <=? p) && (p <? s_off s + 8 * blen (s_buf f)) then bit (s_buf f) (p - s_off s) else bit (s_buf s) p) /\
+  (forall (d : des) (n : N),
+     d_off d mod 8 = 0 ->
+     if blen (d_buf d) - d_off d / 8 <? n then des_fork_bytes d n = None
+     else exists f, des_fork_bytes d n = Some f /\ d_off f = 0 /\ blen (d_buf f) = n /\
+            forall p, bit (d_buf f) p = (p <? 8 * n) && bit (d_buf d) (d_off d + p)).
 Proof.
-  intros s x HI Hok. split; [exact (add_unaligned_array_of_bits_appends s x HI Hok)|exact (add_aligned_array_of_bits_appends s x HI Hok)].
+  split; [|split].
+  - (* py_ser_fork_bytes_spec *) exact ser_fork_bytes_spec.
+  - (* py_ser_join_spec *) exact ser_join_spec.
+  - (* py_des_fork_bytes_spec *) exact des_fork_bytes_spec.
 Qed.
-Print Assumptions C14_py_add_array_of_bits_appends.
+Print Assumptions C14_py_fork_bytes.
 
-Theorem C14_py_fetch_unaligned_array_of_bits_spec :
-  forall (d : des) (count : N),
-    bytes_ok (d_buf d) ->
-    exists out d', fetch_unaligned_array_of_bits d count = Some (out, d') /\ d_buf d' = d_buf d /\ d_off d' = d_off d + count /\
-      N.of_nat (length out) = count /\ forall k, nthb out k = (k <? count) && bit (d_buf d) (d_off d + k).
-Proof. exact fetch_unaligned_array_of_bits_spec. Qed.
-Print Assumptions C14_py_fetch_unaligned_array_of_bits_spec.
 
-(* fork_bytes: the forked (de)serializer works on a window of the same bytes *)
-Theorem C14_py_ser_fork_bytes_spec :
-  forall (s : ser) (n : N),
-    Inv s -> s_off s mod 8 = 0 ->
-    if blen (s_buf s) <? s_off s / 8 + n + 1 then ser_fork_bytes s n = None
-    else exists f, ser_fork_bytes s n = Some f /\ s_off f = 0 /\ blen (s_buf f) = n + 1 /\ Inv f /\
-           forall p, bit (s_buf f) p = (p <? 8 * (n + 1)) && bit (s_buf s) (s_off s + p).
-Proof. exact ser_fork_bytes_spec. Qed.
-Print Assumptions C14_py_ser_fork_bytes_spec.
 
-Theorem C14_py_ser_join_spec :
-  forall s f : ser,
-    s_off s mod 8 = 0 -> s_off s / 8 + blen (s_buf f) <= blen (s_buf s) ->
-    s_off (ser_join s f) = s_off s /\ length (s_buf (ser_join s f)) = length (s_buf s) /\
-    forall p, bit (s_buf (ser_join s f)) p =
-              if (s_off s <=? p) && (p <? s_off s + 8 * blen (s_buf f)) then bit (s_buf f) (p - s_off s) else bit (s_buf s) p.
-Proof. exact ser_join_spec. Qed.
-Print Assumptions C14_py_ser_join_spec.
+(* =============================================================================================
+   Round 2: the remaining public members of the three support modules (models Prims/PrimsExt.v); grouped as conjunctions
+   (every conjunct is one lemma of Prims/PrimsExtThm.v, named in the proof). *)
 
-Theorem C14_py_des_fork_bytes_spec :
-  forall (d : des) (n : N),
-    d_off d mod 8 = 0 ->
-    if blen (d_buf d) - d_off d / 8 <? n then des_fork_bytes d n = None
-    else exists f, des_fork_bytes d n = Some f /\ d_off f = 0 /\ blen (d_buf f) = n /\
-           forall p, bit (d_buf f) p = (p <? 8 * n) && bit (d_buf d) (d_off d + p).
-Proof. exact des_fork_bytes_spec. Qed.
-Print Assumptions C14_py_des_fork_bytes_spec.
+(* C: nunavutSetIxx is nunavutSetUxx on the two's complement image; nunavutSetBit is a 1-bit nunavutSetUxx;
+   Set/GetF32/F64 move the IEEE-754 bit pattern with the integer primitives, F16 composes them with Float16Pack/Unpack *)
+Theorem C14_c_derived_members :
+  (forall (little : bool) (buf : bytes) (size off : N) (value : Z) (len : N),
+     set_ixx little buf size off value len = set_uxx little buf size off (Z.to_N (value mod 2 ^ 64)) len /\
+     forall k, k < 64 -> N.testbit (w64 (Z.to_N (value mod 2 ^ 64))) k = Z.testbit value (Z.of_N k)) /\
+  (forall (little : bool) (buf : bytes) (size off : N) (value : bool),
+     buf_pre buf size off = true -> (off + 1 <? two64) = true ->
+     set_bit buf size off value = set_uxx little buf size off (if value then 1 else 0) 1) /\
+  (forall (little : bool) (buf : bytes) (size off bits32 bits64 : N),
+     set_f32 little buf size off bits32 = set_uxx little buf size off (bits32 mod 2 ^ 32) 32 /\
+     set_f64 little buf size off bits64 = set_uxx little buf size off (bits64 mod 2 ^ 64) 64 /\
+     set_f16 little buf size off bits32 = set_uxx little buf size off (f16_pack (bits32 mod 2 ^ 32)) 16 /\
+     get_f32 little buf size off = get_uxx little 32 buf size off 32 /\
+     get_f64 little buf size off = get_uxx little 64 buf size off 64 /\
+     get_f16 little buf size off = match get_uxx little 16 buf size off 16 with Some h => Some (f16_unpack h) | None => None end).
+Proof. split; [exact set_ixx_is_set_uxx|split; [exact set_bit_is_set_uxx|exact c_float_members_are_integer_members]]. Qed.
+Print Assumptions C14_c_derived_members.
+
+(* C++: setF16/32/64, getF16/32/64 are the C functions on (data, size, offset); saturateBufferFragmentBitLength;
+   setZeros() never fails and zeroes [offset, 8*size); copyTo(dst) copies size() bits *)
+Theorem C14_cpp_derived_members :
+  (forall (s : span) (bits32 bits64 : N),
+     span_okb s = true -> (sp_off s + 64 <? two64) = true ->
+     cpp_set_f32 s bits32 = set_f32 false (sp_data s) (sp_size s) (sp_off s) bits32 /\
+     cpp_set_f64 s bits64 = set_f64 false (sp_data s) (sp_size s) (sp_off s) bits64 /\
+     cpp_set_f16 s bits32 = set_f16 false (sp_data s) (sp_size s) (sp_off s) bits32 /\
+     cpp_get_f32 s = get_f32 false (sp_data s) (sp_size s) (sp_off s) /\
+     cpp_get_f64 s = get_f64 false (sp_data s) (sp_size s) (sp_off s) /\
+     cpp_get_f16 s = get_f16 false (sp_data s) (sp_size s) (sp_off s)) /\
+  (forall (s : span) (len : N),
+     span_okb s = true ->
+     sp_saturate s len = N.min len (sp_size s * 8 - N.min (sp_size s * 8) (sp_off s)) /\ sp_saturate s len <= sp_bits s) /\
+  (forall s : span,
+     span_okb s = true ->
+     exists r, setZeros_all s = Some (inl r) /\ length r = length (sp_data s) /\
+       forall p, bit r p = if (sp_off s <=? p) && (p <? 8 * sp_size s) then false else bit (sp_data s) p) /\
+  (forall src dst : span,
+     span_okb src = true -> span_okb dst = true -> (sp_off dst + sp_bits src <=? 8 * blen (sp_data dst)) = true ->
+     exists r, copyTo_all src dst = Some r /\ length r = length (sp_data dst) /\
+       forall p, bit r p = if (sp_off dst <=? p) && (p <? sp_off dst + sp_bits src)
+                           then bit (sp_data src) (sp_off src + (p - sp_off dst)) else bit (sp_data dst) p).
+Proof. split; [exact cpp_float_members_are_c|split; [exact cpp_saturate_spec|split; [exact setZeros_all_spec|exact copyTo_all_exact]]]. Qed.
+Print Assumptions C14_cpp_derived_members.
+
+(* C++: at_offset, offset_bytes, offset_bytes_ceil, align_offset_to<2^k> *)
+Theorem C14_cpp_offset_members :
+  (forall (s : span) (bits : N),
+     span_okb s = true -> (sp_off s + bits <? two64) = true ->
+     sp_data (at_offset s bits) = sp_data s /\ sp_size (at_offset s bits) = sp_size s /\
+     sp_off (at_offset s bits) = sp_off s + bits /\ at_offset s bits = add_offset s bits /\
+     sp_bits (at_offset s bits) = sp_size s * 8 - (sp_off s + bits)) /\
+  (forall s : span,
+     (sp_off s + 7 <? two64) = true ->
+     offset_bytes s = sp_off s / 8 /\ offset_bytes_ceil s = (sp_off s + 7) / 8 /\
+     8 * offset_bytes s <= sp_off s <= 8 * offset_bytes_ceil s /\ 8 * offset_bytes_ceil s < sp_off s + 8) /\
+  (forall (s : span) (k : N),
+     k <= 6 -> (sp_off s + 2 ^ k <? two64) = true ->
+     let n := 2 ^ k in
+     sp_off (align_offset_to s n) = (sp_off s + (n - 1)) / n * n /\
+     sp_off (align_offset_to s n) mod n = 0 /\ sp_off s <= sp_off (align_offset_to s n) < sp_off s + n).
+Proof. split; [exact at_offset_spec|split; [exact offset_bytes_spec|exact align_offset_to_spec]]. Qed.
+Print Assumptions C14_cpp_offset_members.
+
+(* Python: Serializer.skip_bits keeps the invariant; Deserializer.skip_bits / pad_to_alignment *)
+Theorem C14_py_skip_members :
+  (forall (s : ser) (k : N),
+     Inv s -> s_buf (skip_bits s k) = s_buf s /\ s_off (skip_bits s k) = s_off s + k /\ Inv (skip_bits s k)) /\
+  (forall (d : des) (k n : N),
+     d_buf (des_skip_bits d k) = d_buf d /\ d_off (des_skip_bits d k) = d_off d + k /\
+     (0 < n -> exists d', des_pad_to_alignment d n = Some d' /\ d_buf d' = d_buf d /\ d_off d' mod n = 0 /\
+                          d_off d <= d_off d' < d_off d + n)).
+Proof. split; [exact skip_bits_spec|exact des_skip_pad_spec]. Qed.
+Print Assumptions C14_py_skip_members.
+
+(* Python: ZeroExtendingBuffer.get_byte / get_unsigned_slice / fork_bytes; Deserializer.fork_bytes is built from it
+   (remaining-bytes clamp, offset clamp) *)
+Theorem C14_py_zero_extending_buffer :
+  (forall (b : bytes) (i : N),
+     bytes_ok b -> get_byte b i < 256 /\ (blen b <= i -> get_byte b i = 0) /\
+     forall k, k < 8 -> N.testbit (get_byte b i) k = bit b (8 * i + k)) /\
+  (forall (b : bytes) (l r : N),
+     if r <? l then get_unsigned_slice b l r = None
+     else exists out, get_unsigned_slice b l r = Some out /\ blen out = r - l /\ (bytes_ok b -> bytes_ok out) /\
+            forall k, bit out k = (k <? 8 * (r - l)) && bit b (8 * l + k)) /\
+  (forall (b : bytes) (o n : N),
+     if blen b <? o + n then zeb_fork_bytes b o n = None
+     else exists out, zeb_fork_bytes b o n = Some out /\ blen out = n /\ forall p, bit out p = (p <? 8 * n) && bit b (8 * o + p)) /\
+  (forall (d : des) (n : N),
+     des_fork_bytes d n =
+     if negb (d_off d mod 8 =? 0) then None
+     else if Z.to_N (Z.max (des_remaining d) 0 / 8) <? n then None
+          else match zeb_fork_bytes (d_buf d) (N.min (d_off d / 8) (zeb_bit_length (d_buf d) / 8)) n with
+               | Some b => Some (mkdes b 0)
+               | None => None
+               end).
+Proof. split; [exact zeb_get_byte_spec|split; [exact zeb_get_unsigned_slice_spec|split; [exact zeb_fork_bytes_spec|exact des_fork_bytes_uses_zeb]]]. Qed.
+Print Assumptions C14_py_zero_extending_buffer.
+
+(* Python: arrays of standard-bit-length primitives (little-endian classes): the little-endian image of the elements is
+   appended; fetched element i has the bits at cursor + 8*w*i .. of the zero-extended buffer.  The big-endian classes raise
+   NotImplementedError (and sys.byteorder is little here) *)
+Theorem C14_py_arrays_of_standard_primitives :
+  (forall (aligned : bool) (s : ser) (w : nat) (xs : list N),
+     Inv s -> bytes_ok (s_buf s) ->
+     (if aligned then s_off s mod 8 = 0 /\ s_off s / 8 + N.of_nat w * N.of_nat (length xs) <= blen (s_buf s)
+      else s_off s / 8 + N.of_nat w * N.of_nat (length xs) < blen (s_buf s) \/ le_image w xs = []) ->
+     exists s', (if aligned then add_aligned_array_std s w xs else add_unaligned_array_std s w xs) = Some s' /\
+                appended s s' (8 * (N.of_nat w * N.of_nat (length xs))) (bit (le_image w xs))) /\
+  (forall (w : nat) (xs : list N), (0 < w)%nat -> forall p,
+     bit (le_image w xs) p = (p <? 8 * N.of_nat w * N.of_nat (length xs)) &&
+                             N.testbit (nth (N.to_nat (p / (8 * N.of_nat w))) xs 0) (p mod (8 * N.of_nat w))) /\
+  (forall (aligned : bool) (d : des) (w : nat) (count : N),
+     bytes_ok (d_buf d) -> (aligned = true -> d_off d mod 8 = 0) ->
+     exists elems bs d', (if aligned then fetch_aligned_array_std d w count else fetch_unaligned_array_std d w count) = Some (elems, bs, d') /\
+       d_buf d' = d_buf d /\ d_off d' = d_off d + 8 * (N.of_nat w * count) /\ length elems = N.to_nat count /\
+       forall i k, i < count ->
+         N.testbit (nth (N.to_nat i) elems 0) k = (k <? 8 * N.of_nat w) && bit (d_buf d) (d_off d + 8 * N.of_nat w * i + k)) /\
+  (forall (s : ser) (d : des) (w : nat) (xs : list N) (count : N),
+     be_add_aligned_array_std s w xs = None /\ be_add_unaligned_array_std s w xs = None /\
+     be_fetch_aligned_array_std d w count = None /\ be_fetch_unaligned_array_std d w count = None).
+Proof. split; [exact add_array_std_appends|split; [exact le_image_bit|split; [exact fetch_array_std_spec|exact be_array_std_not_implemented]]]. Qed.
+Print Assumptions C14_py_arrays_of_standard_primitives.
